@@ -1303,8 +1303,14 @@ impl Tuple {
         let reader = TupleReader::from_schema(schema);
         let layout = reader.parse_last_version(self.data.effective_data())?;
 
+        // A delta starts with its (aligned) header; a tuple read back from a cell may carry a few
+        // bytes of alignment padding after its last byte, which are not a delta.
+        let has_delta_at = |cursor: usize, len: usize| {
+            DeltaHeader::aligned_offset(cursor) + DeltaHeader::SIZE <= len
+        };
+
         // No deltas to vacuum
-        if layout.delta_start() >= self.data.len() {
+        if !has_delta_at(layout.delta_start(), self.data.len()) {
             return Ok(0);
         }
 
@@ -1313,7 +1319,7 @@ impl Tuple {
         let mut cursor = layout.delta_start();
         let mut last_needed_end = layout.delta_start();
 
-        while cursor < self.data.len() {
+        while has_delta_at(cursor, self.data.len()) {
             let (delta_header, header_end) =
                 DeltaHeader::read_from(self.data.effective_data(), cursor);
 
